@@ -31,7 +31,7 @@ CHECKS = {
          "always rejected for the same constant). BIP173/350 vectors are evaluated in the kernel. The executable model (with the generated "
          "network table) is compared with addr_base58_to_pubkeyhash, deserialize_address, Address.parse, addr_bech32_to_pubkeyhash, Key(wif), "
          "HDKey(xkey), HDKey.from_wif on EVERY single substitution/insertion/deletion/transposition of sampled valid strings of every class and "
-         "network, plus random damage, case changes, truncation and padding. Found and fixed through this check: F05, F06, F27, F28."),
+         "network, plus random damage, case changes, truncation and padding. Found and fixed through this check: F05, F06, F27, F28. Every (witness version, program length 1..41, 64, 65) with a valid checksum and the q-insertion strings are swept. Listed: F47 (encoder mistakes some unusual-length programs for scripts)."),
    design_ref='DESIGN.md §5 C11',
    note=COMMON_NOTE + "Cryptographic residue (not a theorem): a corrupted Base58Check string is rejected unless the 4-byte SHA-256d checksums collide (2^-32). "
         "convertbits round trip and HRP-character substitutions are covered by the correspondence run only. A refusal of a string the Spec would accept "
